@@ -17,7 +17,7 @@ type Cache struct {
 
 // clientEntries holds entries of client details sent to the service.
 type clientEntries struct {
-	replayMap map[time.Time]replayCacheEntry
+	replayMap map[time.Time][]replayCacheEntry
 	seqNumber int64
 	subKey    types.EncryptionKey
 }
@@ -40,8 +40,8 @@ func (c *Cache) getClientEntry(cname types.PrincipalName, t time.Time) (replayCa
 	if ce, ok := c.getClientEntries(cname); ok {
 		c.mux.RLock()
 		defer c.mux.RUnlock()
-		if e, ok := ce.replayMap[t]; ok {
-			return e, true
+		if es, ok := ce.replayMap[t]; ok && len(es) > 0 {
+			return es[0], true
 		}
 	}
 	return replayCacheEntry{}, false
@@ -71,27 +71,28 @@ func GetReplayCache(d time.Duration) *Cache {
 
 // AddEntry adds an entry to the Cache.
 func (c *Cache) AddEntry(sname types.PrincipalName, a types.Authenticator) {
+	c.mux.Lock()
+	defer c.mux.Unlock()
+	c.addEntry(sname, a)
+}
+
+// addEntry adds an entry to the Cache. The caller must hold the write lock.
+func (c *Cache) addEntry(sname types.PrincipalName, a types.Authenticator) {
 	ct := a.CTime.Add(time.Duration(a.Cusec) * time.Microsecond)
-	if ce, ok := c.getClientEntries(a.CName); ok {
-		c.mux.Lock()
-		defer c.mux.Unlock()
-		ce.replayMap[ct] = replayCacheEntry{
-			presentedTime: time.Now().UTC(),
-			sName:         sname,
-			cTime:         ct,
-		}
+	e := replayCacheEntry{
+		presentedTime: time.Now().UTC(),
+		sName:         sname,
+		cTime:         ct,
+	}
+	if ce, ok := c.entries[a.CName.PrincipalNameString()]; ok {
+		ce.replayMap[ct] = append(ce.replayMap[ct], e)
 		ce.seqNumber = a.SeqNumber
 		ce.subKey = a.SubKey
+		c.entries[a.CName.PrincipalNameString()] = ce
 	} else {
-		c.mux.Lock()
-		defer c.mux.Unlock()
 		c.entries[a.CName.PrincipalNameString()] = clientEntries{
-			replayMap: map[time.Time]replayCacheEntry{
-				ct: {
-					presentedTime: time.Now().UTC(),
-					sName:         sname,
-					cTime:         ct,
-				},
+			replayMap: map[time.Time][]replayCacheEntry{
+				ct: {e},
 			},
 			seqNumber: a.SeqNumber,
 			subKey:    a.SubKey,
@@ -104,8 +105,10 @@ func (c *Cache) ClearOldEntries(d time.Duration) {
 	c.mux.Lock()
 	defer c.mux.Unlock()
 	for ke, ce := range c.entries {
-		for k, e := range ce.replayMap {
-			if time.Now().UTC().Sub(e.presentedTime) > d {
+		for k := range ce.replayMap {
+			// An authenticator stays acceptable until its client time is more than the permitted skew in the past,
+			// however long ago it was first presented.
+			if time.Now().UTC().Sub(k) > d {
 				delete(ce.replayMap, k)
 			}
 		}
@@ -118,11 +121,16 @@ func (c *Cache) ClearOldEntries(d time.Duration) {
 // IsReplay tests if the Authenticator provided is a replay within the duration defined. If this is not a replay add the entry to the cache for tracking.
 func (c *Cache) IsReplay(sname types.PrincipalName, a types.Authenticator) bool {
 	ct := a.CTime.Add(time.Duration(a.Cusec) * time.Microsecond)
-	if e, ok := c.getClientEntry(a.CName, ct); ok {
-		if e.sName.Equal(sname) {
-			return true
+	// The look up and the insert must be one critical section or concurrent presentations of one authenticator all pass.
+	c.mux.Lock()
+	defer c.mux.Unlock()
+	if ce, ok := c.entries[a.CName.PrincipalNameString()]; ok {
+		for _, e := range ce.replayMap[ct] {
+			if e.sName.Equal(sname) {
+				return true
+			}
 		}
 	}
-	c.AddEntry(sname, a)
+	c.addEntry(sname, a)
 	return false
 }
